@@ -144,7 +144,9 @@ def guard_of(game, meta):
         return meta["guard"]
     if st in ("exact", "ties", "pattern", "corpus"):
         return "exact"
-    if st == "stopping":
+    if st != "tiny":
+        # the a-priori bound of C01_error_bound / C02_error_bound: error <= threshold * T, with T the largest expected number
+        # of steps to absorption over all strategy pairs (an absorption-time certificate); None when some pair never absorbs
         T = ox.max_steps(game, meta)
         if T is not None and THR * float(T) <= 5e-5:
             return "cond"
